@@ -632,6 +632,17 @@ theorem createPRISM_fields (s : Sys ℝ) (p : Prism ℝ) (d : Dom ℝ) (hd : s.d
       simp [hP] <;> (cases P.sigma <;> simp)
   · cases h
 
+/-- **an explicitly given σ is used as it is — also the value 0** (a core-less pair); only a potential without σ gets the mean of
+the two site diameters.  (The implementation tests `U.sigma is None`; a truthiness test would treat 0 as "not given".) -/
+theorem explicit_sigma_kept (s : Sys ℝ) (p : Prism ℝ) (d : Dom ℝ) (hd : s.dom = some d) (h : s.createPRISM = .ok p)
+    (i j : ℕ) (hij : i ≤ j) (P : PotSpec ℝ) (hP : s.pot i j = some P) :
+    (∀ v, P.sigma = some v → p.potSigma i j = v) ∧ (P.sigma = none → p.potSigma i j = (s.diam.sigma i j).getD 0) := by
+  obtain ⟨_, _, hf⟩ := createPRISM_fields s p d hd h
+  obtain ⟨g1, _⟩ := (hf i j hij).2.2 P hP
+  constructor
+  · intro v hv; rw [g1, hv]
+  · intro hn; rw [g1, hn]
+
 /-- **`createPRISM` leaves, for every pair, private potential / closure objects that agree with the value-level state it
 returns** (the object-level and the value-level descriptions of the same constructor coincide) -/
 theorem create_cells_agree (w : World ℝ) (hw : WInv w) (core : Prism ℝ) (d : Dom ℝ)
